@@ -275,9 +275,15 @@ func labelsOf(m *dto.Metric) map[string]string {
 
 func gather(prefix string) []map[string]any {
 	res := []map[string]any{}
+	// Gather hands back what it could collect together with an error about the rest (two engines of one process that
+	// registered the same family name with different types): the consistent families are still read
 	mfs, err := prometheus.DefaultGatherer.Gather()
 	if err != nil {
-		return append(res, map[string]any{"name": "gather-error", "err": err.Error()})
+		e := err.Error()
+		if len(e) > 300 {
+			e = e[:300]
+		}
+		res = append(res, map[string]any{"name": "gather-error", "err": e, "labels": map[string]string{}, "type": "error"})
 	}
 	for _, mf := range mfs {
 		if !strings.HasPrefix(mf.GetName(), prefix) {
